@@ -14,13 +14,13 @@ vlib.build_harness()
 r = random.Random(seed)
 scs = (F.fam_crash(r, 10, crashmax=8, double=0, fn=True) + F.fam_crash(r, 4, crashmax=6, double=0, fn=False, flip=True) + F.fam_crash_tol(r, 4)
        + F.fam_crash(r, 4, crashmax=5, double=3, fn=True) + F.fam_kill(r, 4) + F.fam_failwrite(r, 6) + F.fam_crash_conc(r, 3)
-       + F.fam_crash_deferred(r, 4) + F.fam_crash_order(r, 4, crashmax=8) + F.fam_crash_slow(r, 2))
+       + F.fam_crash_deferred(r, 4) + F.fam_crash_order(r, 4, crashmax=8) + F.fam_crash_slow(r, 2) + F.fam_resume(r, 12))
 for i, s in enumerate(scs):
     s["id"] = i
     s["seed"] = seed * 1000 + i
 events, info = vlib.run_jobs(scs, tag="cs")
 traces = vlib.split_traces(events)
-crash = {k: t for k, t in traces.items() if t[0].get("mode") == "crash" and engine_model.conformable(t)}
+crash = {k: t for k, t in traces.items() if t[0].get("mode") in ("crash", "resume") and engine_model.conformable(t)}
 print(len(traces), "traces,", len(crash), "conformable traces of resuming processes")
 res = engine_model.conformance(crash, n, seed)
 print({k: v for k, v in res.items() if k != "rejected"})
